@@ -324,7 +324,9 @@ def r5_failed_result_pairing(chk, rule='C07.R5'):
                 if s2 and s2[0] == r.result and _key_is(s2[1], k) and \
                         cr.status_of(s2[2], r.status_consts) in ('failed', 'missing'):
                     ok = True
-                if isinstance(cand, ast.If) and any(
+                if isinstance(cand, ast.If) and isinstance(cand.test, ast.Compare) and len(cand.test.ops) == 1 and \
+                        isinstance(cand.test.ops[0], ast.NotIn) and _key_is(cand.test.left, k) and \
+                        _key_is(cand.test.comparators[0], r.result) and any(
                         cr.subscript_store(b) and cr.subscript_store(b)[0] == r.result and
                         _key_is(cr.subscript_store(b)[1], k) and
                         cr.status_of(cr.subscript_store(b)[2], r.status_consts) in ('failed', 'missing')
@@ -741,6 +743,7 @@ def r9_wellformedness(chk):
     common.wellformedness(chk, 'C07.R9', rels, floor=100)
     common.part_handlers_return(chk, 'C07.R9', 'pysmi/codegen/intermediate.py', 'IntermediateCodeGen')
     common.part_handlers_return(chk, 'C07.R9', 'pysmi/codegen/symtable.py', 'SymtableCodeGen')
+    common.contradictory_lookups(chk, 'C07.R9', sorted(r for r in chk.model.modules if r.startswith(('pysmi/', 'scripts/'))))
 
 
 
